@@ -5,7 +5,7 @@ import ast
 from typing import FrozenSet, List, Optional
 
 from ..cfg import cfg_of, no_exc
-from ..facts import Atom, falsy, is_none, not_terminated, pending, state_not, truthy
+from ..facts import Atom, falsy, is_none, not_none, not_terminated, pending, state_not, truthy
 from ..fut import classify, writer_sites
 from ..model import AnalysisError, EnumMember, is_self_attr, norm, strip_cast, unparse, walk_shallow
 from ..report import Check
@@ -83,7 +83,8 @@ def kill_ladder(chk: Check) -> None:
     chk.ob('GUARD-kill-ladder', kill, ok_true, 'kill() on an already KILLED process returns True', kind='return:already-killed')
     ok_false = any(('T', 'self._state.is_terminal()') in fs for v, fs in shapes.items() if v == 'False')
     chk.ob('GUARD-kill-ladder', kill, ok_false, 'kill() on a FINISHED/EXCEPTED process returns False', kind='return:terminated')
-    ok_pending = any(truthy(fs, KILLING) for v, fs in shapes.items() if v == KILLING)
+    # (the slot holds None or an action object: "is not None" and truthiness say the same)
+    ok_pending = any(not_none(fs, KILLING) for v, fs in shapes.items() if v == KILLING)
     chk.ob('GUARD-kill-ladder', kill, ok_pending, 'kill() while a kill is pending returns the pending action', kind='return:pending')
     # no statement of kill() before the transition may raise other than through the calls analysed: nothing to do
 
@@ -214,7 +215,7 @@ def end_of_step_dispatch(chk: Check) -> None:
     ex = execs[0]
     for r in runs:
         fs = ff.at(r)
-        chk.ob('DOM-end-of-step', step, truthy(fs, IA), 'the interrupt action is run only when one is set', node=r.ast, kind='run-iff-set')
+        chk.ob('DOM-end-of-step', step, not_none(fs, IA), 'the interrupt action is run only when one is set', node=r.ast, kind='run-iff-set')
         call = [c for c in _calls(r) if norm(c.func) == f'{IA}.run'][0]
         chk.ob('DOM-end-of-step', step, [norm(a) for a in call.args] == ['next_state'], 'the action receives the step\'s next state '
                '(a pause must not lose the step)', node=r.ast, kind='run-gets-next-state')
@@ -250,7 +251,9 @@ def end_of_step_dispatch(chk: Check) -> None:
     chk.ob('PAIR-stepping', step, ok_set, '_stepping is raised before the state is executed (kill()/pause() defer on it)', kind='stepping-set')
     fin = [t for t in ast.walk(step.node) if isinstance(t, ast.Try) and any(
         isinstance(s, ast.Assign) and norm(s.targets[0]) == STEPPING and norm(s.value) == 'False' for s in t.finalbody)]
-    chk.ob('PAIR-stepping', step, bool(fin) and all(any(x is s.ast for x in ast.walk(fin[0])) for s in set_true),
+    from ..rules import flag_lowered_on_every_exit
+    low_ok, _n_up = flag_lowered_on_every_exit(step, STEPPING, 'True', 'False')
+    chk.ob('PAIR-stepping', step, bool(fin) and bool(set_true) and low_ok,
            '_stepping is lowered in the finally of the try that raises it', kind='stepping-reset')
 
 
